@@ -254,7 +254,8 @@ pub fn c15_case(cfg: &Cfg, rep: &mut Report, case_seed: u64, cli: &str, dir: &Pa
 /// wide frameworks (9 to 11 loosely coupled statements, hundreds of two-valued models): long model streams
 pub fn c15_wide(cfg: &Cfg, rep: &mut Report, case_seed: u64, cli: &str, dir: &Path, wrapper: &[String]) {
     let mut rng = Rng::new(case_seed ^ 0x31DE);
-    let n = cfg.get_usize("wide_n", 9 + rng.below(if cfg.thorough { 3 } else { 2 }));
+    // (9 to 11 statements in the quick tier: up to 2048 two-valued models; thorough: up to 12 statements, 4096 models)
+    let n = cfg.get_usize("wide_n", 9 + rng.below(if cfg.thorough { 4 } else { 3 }));
     let case = crate::sem::wide_case(case_seed, n);
     rep.count("wide_cases", 1);
     rep.max("wide_case_two_valued_models", case.sem.two_valued().len() as u64);
@@ -362,7 +363,9 @@ fn c15_run(cfg: &Cfg, rep: &mut Report, case_seed: u64, mut case: SmallCase, cli
             args.push(h.into());
         }
         // logging options must not change what is printed on stdout
-        match rng.below(12) {
+        // (`--always_verbose`: the leg that drives the dev-profile binary always switches debug or trace logging on)
+        let verbose_env = cfg.flag("always_verbose") && rng.chance(1, 3);
+        match if cfg.flag("always_verbose") { if verbose_env { 99 } else { *rng.pick(&[1usize, 2, 1, 2, 4]) } } else { rng.below(12) } {
             0 => args.push("-v".into()),
             1 => args.push("-vv".into()),
             2 => args.push("-vvv".into()),
@@ -374,7 +377,9 @@ fn c15_run(cfg: &Cfg, rep: &mut Report, case_seed: u64, mut case: SmallCase, cli
             _ => {}
         }
         // the environment variable the logger documents, too
-        let envs: Vec<(&str, &str)> = if rng.chance(1, 10) { vec![("RUST_LOG", *rng.pick(&["trace", "debug", "adf_bdd=trace", "warn"]))] } else { Vec::new() };
+        let envs: Vec<(&str, &str)> = if verbose_env {
+            vec![("RUST_LOG", *rng.pick(&["trace", "debug"]))]
+        } else if rng.chance(1, 10) { vec![("RUST_LOG", *rng.pick(&["trace", "debug", "adf_bdd=trace", "warn"]))] } else { Vec::new() };
         // model counting output (naive and hybrid mode only): one extra first line
         let counter = lib != "biodivine" && rng.chance(1, 4);
         if counter {
